@@ -332,18 +332,38 @@ func slowSessionC13(p *C13Plan) *sim.Outcome {
 	o.Fault("served_agent_slow")
 	gaveUp := false
 	for i := 0; i < p.NSlow; i++ {
+		// raw relays, slot listings and slot reads in turn (which one is slow depends on SlowAt and NSlow)
+		kind := []string{"forward", "readslot", "listslots"}[(i+p.NSlow)%3]
 		req := append([]byte{200}, []byte(fmt.Sprintf("raw request %d of a session with a slow agent", i))...)
 		var got []byte
+		var gotCert *x509.Certificate
+		var gotSlots []string
 		var cerr error
 		var cpanic any
 		func() {
 			defer func() { cpanic = recover() }()
-			got, cerr = cli.Forward(req)
+			switch kind {
+			case "forward":
+				got, cerr = cli.Forward(req)
+			case "readslot":
+				gotCert, cerr = cli.ReadSlot("9a")
+			case "listslots":
+				gotSlots, cerr = cli.ListSlots()
+			}
 		}()
-		tag := fmt.Sprintf("op %d forward (request %d of %d, the served agent takes %d s over request %d)", i, i, p.NSlow, p.SlowS, p.SlowAt)
+		tag := fmt.Sprintf("op %d %s (request %d of %d, the served agent takes %d s over request %d)", i, kind, i, p.NSlow, p.SlowS, p.SlowAt)
+		agrees := false
+		switch kind {
+		case "forward":
+			agrees = bytes.Equal(got, echoReply(req))
+		case "readslot":
+			agrees = gotCert != nil && bytes.Equal(gotCert.Raw, st.cert.Raw)
+		case "listslots":
+			agrees = strings.Join(gotSlots, "|") == strings.Join(st.slots, "|")
+		}
 		switch {
 		case cpanic != nil:
-			o.Fail("C13.no_crash", "client_panic:forward", i, "%s: client panicked: %v", tag, cpanic)
+			o.Fail("C13.no_crash", "client_panic:"+kind, i, "%s: client panicked: %v", tag, cpanic)
 			return o
 		case cerr != nil && i == p.SlowAt:
 			gaveUp = true
@@ -351,9 +371,9 @@ func slowSessionC13(p *C13Plan) *sim.Outcome {
 		case cerr != nil && gaveUp:
 			o.Probe("request_refused_after_giving_up")
 		case cerr != nil:
-			o.Fail("C13.result", "spurious_error:forward", i, "%s: the served agent answered but the caller got error %v", tag, cerr)
-		case !bytes.Equal(got, echoReply(req)):
-			o.Fail("C13.result", "forward_reply", i, "%s: the caller received %q, the served agent answered this request with %q", tag, trunc(got), trunc(echoReply(req)))
+			o.Fail("C13.result", "spurious_error:"+kind, i, "%s: the served agent answered but the caller got error %v", tag, cerr)
+		case !agrees:
+			o.Fail("C13.result", "other_requests_answer:"+kind, i, "%s: the caller received something else than the served agent's answer to this request (raw %q, slots %q, certificate %v)", tag, trunc(got), gotSlots, gotCert != nil)
 		default:
 			o.Probe("op_agrees")
 		}
